@@ -60,6 +60,42 @@ ptg.run(ctx, jdf, outdir, name=None, opts=(), dep=None, overlays=(), check=True)
     instead of raising (C24: "is this program rejected?").
 
 ptg.jdf_path(ctx, jdf, overlays=()) -> absolute path of a corpus JDF.
+
+Harness side (C): vp/include/vp_ptg_pre.h (include BEFORE the generated .c: stdio, snprintf capture,
+main -> generated_main, VP_STR/VP_CAT*, optional -DVP_PTG_STUB_MEMPOOL / -DVP_PTG_STUB_RING redirections of
+the inline parsec_thread_mempool_allocate / parsec_list_item_ring_push_sorted to harness functions) and
+vp/include/vp_ptg.h (include AFTER it: constant class descriptors, hash table / data repo / taskpool enable /
+termdet / data collection stubs, vp_snprintf).  Corpus + hand-written reference models: /verif/jdf/<name>.jdf,
+<name>.ref.h (add `incs=[ptg.JDF_DIR]` to the Q).  Working examples: harness/C23/h.c (keys), harness/C01/o1_count.c
+(internal_init), o2_startup.c (chunked startup), o3_succ.c (iterate_successors), o3_goal.c (real parsec.c
+dependency functions on the generated tables), harness/C02/o2_lookup.c, o3_release.c.
+
+Measured lessons (each cost hours; see DESIGN 1.2/1.5 for the older ones)
+  * JDF globals CONCRETE (enumerate in spec.py, several valuations per query through -DVALS), task
+    instances / candidate edges / flows SYMBOLIC.
+  * ONE set of static objects (taskpool, task, data collection), reset by struct assignment from a zero
+    object for every valuation.  Never `static T arr[NVAL]` of taskpools/tasks: type-punned accesses into an
+    array of big structs (the generated code casts task pointers all the time) cost minutes per access.
+    Never a 2-D array of AST/task structs; never a pointer INTO an array of large structs in code under test.
+  * Class descriptors (parsec_task_t_class ...) must be constant-initialized (vp_ptg.h does it): with a
+    run-time parsec_class_initialize the constructor loop of PARSEC_OBJ_CONSTRUCT becomes a loop of calls
+    through an unknown void(*)(parsec_object_t*) = every such function of the TU.
+  * Never CALL through a function pointer read from a const table with a symbolic index
+    (`ref_tc[c]->make_key(...)`): CBMC 6.11 recurses forever in function-pointer removal (segfault).  Call
+    the generated functions by name through an if-chain (see ref_make_key in the .ref.h files).  Reading
+    DATA through such a table with a symbolic index and using it as an array index also crashed symex:
+    select with an if-chain over constant indices.
+  * Generated tables store guards in a union (parsec_expr_t.u_expr): CBMC cannot constant-fold the function
+    pointer, so a call `dep->cond->inline_func32(...)` in real runtime code is dispatched to EVERY function of
+    the TU with two pointer parameters (hooks, startup, internal_init, ...).  Remove their bodies with
+    Q(remove_bodies=[...]) (names are predictable: <jdf>_<CLS>_internal_init, __jdf2c_startup_<CLS>,
+    hook_of_<jdf>_<CLS>_CPU, release_deps_of_..., data_lookup_of_...) and include only the needed part of the
+    runtime file (harness/C01/spec.py TRIM_PARSEC_C: `patches` that #if 0 the rest of parsec.c).
+  * Loops of generated code entered with symbolic state (startup re-entry) need a TIGHT --unwind
+    (trip count of the valuation + 2); harness loops get their own unwindset.  Do not name a harness file
+    like the JDF (`startup.c` + `#include "startup.c"` recurses).
+  * Stubs must not write arrays at a symbolic index (counters under symbolic guards): keep scalars and
+    compare with a symbolic candidate drawn BEFORE the call (see o2_startup.c, o3_succ.c).
 """
 import concurrent.futures
 import hashlib
